@@ -198,6 +198,7 @@ class PyFatFS(FS):
             if not wipe:
                 return False
             else:
+                self.__verify_writable()
                 # Clean up existing file contents
                 dt = DosDateTime.now(tz=self.tz)
                 dentry.wrttime = dt.serialize_time()
@@ -329,6 +330,13 @@ class PyFatFS(FS):
 
         return SubFS(self, path)
 
+    def __verify_writable(self):
+        """Refuse to modify in-memory state of a read-only filesystem."""
+        if self.fs.is_read_only:
+            raise PyFATException("Filesystem has been opened read-only, not "
+                                 "able to perform a write operation!",
+                                 errno=errno.EROFS)
+
     @staticmethod
     def __forget_dir_entry(parent_dir: FATDirectoryEntry,
                            dir_entry: FATDirectoryEntry):
@@ -416,6 +424,8 @@ class PyFatFS(FS):
         :raises PyFATException: ``ENOENT`` if given dir entry does not exist
                                 in ``parent_dir``
         """
+        self.__verify_writable()
+
         # Remove entry from parent directory
         parent_dir.remove_dir_entry(str(dir_entry))
         self.fs.update_directory_entry(parent_dir)
@@ -499,6 +509,7 @@ class PyFatFS(FS):
         """Set file meta information such as timestamps."""
         details = info.get('details', {})
         dentry = self._get_dir_entry(path)
+        self.__verify_writable()
 
         ctime = details.get("created")
         mtime = details.get("modified")
